@@ -155,6 +155,14 @@ def faults(cfg, rng):
             m('calibration-count', t['id'], lambda c, ti=ti: c['trains'][ti].__setitem__('calibration', c['trains'][ti]['calibration'][:rng.choice([0, 1, 8])]))
             m('calibration-count', t['id'] + '+', lambda c, ti=ti: c['trains'][ti].__setitem__('calibration', c['trains'][ti]['calibration'] + [5]))
             m('calibration-value', t['id'], lambda c, ti=ti: c['trains'][ti]['calibration'].__setitem__(rng.randrange(9), rng.choice([127, 128, 255])))
+        # 'not being 9 values' also covers a calibration that is no list: one scalar or no value at all, with the train going on to its
+        # peripherals or ending right there
+        for text in ('100', '', '[]', '[1, 2, 3, 4, 5, 6, 7, 8]'):
+            m('calibration-count', t['id'] + f'/scalar({text})', lambda c, ti=ti, text=text: c['trains'][ti].__setitem__('calibration', ('scalar', text)))
+            def last(c, ti=ti, text=text):
+                c['trains'][ti]['calibration'] = ('scalar', text)
+                c['trains'][ti]['peripherals'] = None
+            m('calibration-count', t['id'] + f'/scalar({text}),train-ends', last)
         ps = t.get('peripherals') or []
         for pi in range(len(ps)):
             m('function-bit-range', ps[pi]['id'], lambda c, ti=ti, pi=pi: c['trains'][ti]['peripherals'][pi].__setitem__('bit', rng.choice([32, 33, 64, 255])))
@@ -248,7 +256,15 @@ def run(ctx):
             bycls.setdefault(f[0], []).append(f)
         for cls, lst in sorted(bycls.items()):
             rng.shuffle(lst)
-            for f in lst[:(10 if not ctx.quick else 4) if cls != 'malformed-value' else 40]:
+            # stratified: one candidate of every variant shape of the class first ('<id>/fewer-ports', '<id>/scalar(100),train-ends', '<id>+', ...),
+            # then the rest up to the per-class limit
+            shape = lambda f: (str(f[1]).split('/', 1)[1] if '/' in str(f[1]) else ('+' if str(f[1]).endswith('+') else ('~' if '~' in str(f[1]) else '')))
+            seen_shapes, first, rest = set(), [], []
+            for f in lst:
+                (rest if shape(f) in seen_shapes else first).append(f)
+                seen_shapes.add(shape(f))
+            lim = (10 if not ctx.quick else 4) if cls != 'malformed-value' else 40
+            for f in first + rest[:max(0, lim - len(first))]:
                 texts = apply_fault(cfg, f)
                 d = cfggen.write_config(cfg, cfg_dir(f'c14f_{k}_{len(jobs)}'), texts)
                 sc = Scn(seed=ctx.seed * 67 + k, watchdog=240000)
